@@ -19,6 +19,11 @@ def sh(cmd, **kw):
     return subprocess.run(cmd, stdout=subprocess.PIPE, stderr=subprocess.STDOUT, text=True, **kw)
 
 
+# --fast: the existing tests of the touched packages are not re-run (for seeded changes tools/seed_intake.py did that) and
+# the check stops its remaining jobs as soon as one job has reported the change (VERIF_STOP_AT_FIRST)
+FAST = "--fast" in sys.argv
+
+
 def run_one(mu, tier, seed):
     wt = tempfile.mkdtemp(prefix="mut_")
     os.rmdir(wt)
@@ -46,12 +51,15 @@ def run_one(mu, tier, seed):
         if r.returncode != 0:
             res["status"] = "does-not-compile: " + r.stdout[-400:]
             return res
+        if FAST:
+            res["own_tests"] = "(verified at intake)"
+        else:
+            t0 = time.time()
+            r = sh(["go", "test", "-vet=off", "-count=1", "-timeout", "180s"] + pkgs, cwd=wt, env=ENV)
+            res["own_tests"] = "pass" if r.returncode == 0 else "FAIL"
+            res["own_tests_s"] = round(time.time() - t0, 1)
         t0 = time.time()
-        r = sh(["go", "test", "-vet=off", "-count=1", "-timeout", "180s"] + pkgs, cwd=wt, env=ENV)
-        res["own_tests"] = "pass" if r.returncode == 0 else "FAIL"
-        res["own_tests_s"] = round(time.time() - t0, 1)
-        t0 = time.time()
-        r = sh([os.path.join(ROOT, "check"), mu["prop"], "--tier", tier], cwd=ROOT, env=dict(os.environ, VERIF_REPO=wt, VERIF_SEED=str(seed)))
+        r = sh([os.path.join(ROOT, "check"), mu["prop"], "--tier", tier], cwd=ROOT, env=dict(os.environ, VERIF_REPO=wt, VERIF_SEED=str(seed), **({"VERIF_STOP_AT_FIRST": "1"} if FAST else {})))
         res["check_rc"] = r.returncode
         res["check_s"] = round(time.time() - t0, 1)
         viol = [l for l in r.stdout.splitlines() if l.startswith("  violation detail") or l.startswith("VIOLATION")]
@@ -87,6 +95,7 @@ def main():
     ap.add_argument("--jobs", type=int, default=3)
     ap.add_argument("--seed", type=int, default=1)
     ap.add_argument("--seeded", action="store_true")
+    ap.add_argument("--fast", action="store_true")
     a = ap.parse_args()
     todo = M
     if a.seeded:
